@@ -269,8 +269,10 @@ def decide(pid, tier, seed, P, vres, kres, kmeta, vac, t0, evdir):
             obligations += len(names)
             discharged += len(names)
             if len(samples) < 6 and names:
+                ct = r.get('clause_text') or {}
+                written = [{'obligation': n, 'contract': 'ensures ' + ct[n]} for n in names if n in ct][:4]
                 samples.append({'backend': 'verus', 'unit': r['unit'], 'obligation': names[0],
-                                'all_in_unit': names[:12]})
+                                'written_out': written, 'all_in_unit': names[:12]})
         elif r['status'] == 'failed':
             obligations += len(names)
             bad = set()
@@ -295,9 +297,11 @@ def decide(pid, tier, seed, P, vres, kres, kmeta, vac, t0, evdir):
         else:
             u_ = r.get('_unit_obj')
             found = False
-            if u_ is not None and getattr(u_, 'oracle', None) and 'solver limit' in r.get('reason', ''):
-                # Z3 ran out of budget instead of refuting: let the executable contract decide on the real code
-                f = {'obligation': '%s/(solver limit)' % r['unit'], 'message': r.get('reason', ''), 'function': None, 'rendered': r.get('reason', '')}
+            if u_ is not None and getattr(u_, 'oracle', None) and ('solver limit' in r.get('reason', '') or r.get('lost_anchor')):
+                # Z3 ran out of budget instead of refuting, or the code changed shape under the contract:
+                # let the executable contract decide on the real code
+                kind_ = 'solver limit' if 'solver limit' in r.get('reason', '') else 'contract anchor lost'
+                f = {'obligation': '%s/(%s)' % (r['unit'], kind_), 'message': r.get('reason', ''), 'function': None, 'rendered': r.get('reason', '')}
                 path, found = verus_counterexample(r, f, evdir, pid)
                 if found:
                     obligations += len(names)
